@@ -529,6 +529,14 @@ class PyMap(Val):
     def py_iter(self, cx):
         return enum_of_pred(lambda x: z3.Select(self.dom, x), "map")
 
+    def m_values(self, cx):
+        """dict.values(): the values along an arbitrary duplicate-free enumeration of the keys"""
+        ke = enum_of_pred(lambda x: z3.Select(self.dom, x), "mapk")
+        val = self.val
+        en = PyEnum(ke.n, lambda j: z3.Select(val, ke.at(j)), self.valty, axioms=ke.axioms)
+        en.keys = ke
+        return en, None
+
     def m_get(self, cx, k, default=None):
         if default is None:
             raise Unsupported("dict.get without default")
@@ -576,7 +584,9 @@ class PySeq(Val):
         return isinstance(other, PySeq) and self.n.eq(other.n) and self.arr.eq(other.arr)
 
     def py_iter(self, cx):
-        return PyEnum(self.n, lambda j: z3.Select(self.arr, j), self.elty, axioms=[self.n >= 0] + self.axioms)
+        en = PyEnum(self.n, lambda j: z3.Select(self.arr, j), self.elty, axioms=[self.n >= 0] + self.axioms)
+        en.arr = self.arr
+        return en
 
     def py_len(self, cx):
         return PyInt(self.n)
